@@ -30,9 +30,47 @@ WITNESSES = {"bzr": {"NamedIgnored", "NestedSkipped", "HelperSkipped", "HelperAd
              "git": {"NamedIgnored", "NestedSkipped", "HelperSkipped", "HelperAddedWithoutConflict", "IgnoredDirSkipped"}}
 
 
-def consts(fl, ignsets, maxargs=2):
-    return {"Flavour": '"%s"' % fl, "MaxArgs": maxargs,
-            "IgnSets": "{%s}" % ", ".join("{%s}" % ", ".join('"%s"' % p for p in s) for s in ignsets)}
+def tla_sets(sets):
+    return "{%s}" % ", ".join("{%s}" % ", ".join('"%s"' % p for p in s) for s in sets)
+
+
+def consts(fl, ignsets, laysel=(), maxargs=2):
+    return {"Flavour": '"%s"' % fl, "MaxArgs": maxargs, "IgnSets": tla_sets(ignsets), "LaySel": tla_sets(laysel)}
+
+
+ITEMS = ["f", "g.o", "d", "d/f", "d/g.o", "d/@", "n", "n/@", "f.THIS", "f.OTHER"]
+FULL = ["f", "g.o", "d", "d/f", "d/g.o", "n", "n/@", "f.THIS", "f.OTHER"]      # every witness occurs on this layout
+
+
+def all_layouts():
+    """The layouts of SmartAddGen!AllLayouts (for seeding the quick tier's selection)."""
+    out = []
+    for m in range(1 << len(ITEMS)):
+        L = [p for i, p in enumerate(ITEMS) if m >> i & 1]
+        if all("/" not in p or p.split("/")[0] in L for p in L) and (("f.THIS" in L) == ("f.OTHER" in L)):
+            out.append(L)
+    return out
+
+
+_cfg_n = [0]
+
+
+def cfg_file(ctx, text):
+    """Write a cfg into the staged specs directory under a name of our own (vf.tlc derives names from the directory
+    listing, which races between threads)."""
+    d = tlc.stage(ctx.workdir)
+    _cfg_n[0] += 1
+    name = "C11_%d.cfg" % _cfg_n[0]
+    with open(os.path.join(d, name), "w") as f:
+        f.write(text)
+    return name
+
+
+def parallel(fn, argsets, width):
+    """Several TLC runs side by side (enumerating initial states and exporting JSON is single-threaded in TLC)."""
+    from concurrent.futures import ThreadPoolExecutor
+    with ThreadPoolExecutor(max(1, width)) as ex:
+        return list(ex.map(lambda a: fn(*a), argsets))
 
 
 def concrete(fl, nested, p):
@@ -170,17 +208,19 @@ def run(ctx):
     ctx.assume("user-wide ignore list (~/.config/breezy/ignore) is empty; the tree's ignore file is the only source of patterns")
     allsets = [[p for i, p in enumerate(PATS) if m >> i & 1] for m in range(16)]
     jobs = []
+    gen = []
     for fl in ("bzr", "git"):
-        if ctx.quick:       # two lists on which every witness occurs, and one seeded other list
+        if ctx.quick:       # two lists and one layout on which every witness occurs; the rest seeded
             fixed = [["*.o"], ["d"]]
-            groups = [fixed + [ctx.rng.choice([x for x in allsets if x not in fixed])]]
+            lays = [FULL] + ctx.rng.sample([L for L in all_layouts() if L != FULL], 39)
+            groups = [(fixed + [ctx.rng.choice([x for x in allsets if x not in fixed])], lays)]
         else:
-            groups = [allsets[i:i + 4] for i in range(0, 16, 4)]
-        cases = []
-        for g in groups:
-            got, res = tlc.json_cases(ctx, "SmartAddGen", cfg_text=table.cfg(consts(fl, g), ("LawsHoldOnSpec",)),
-                                      label="SmartAddGen %s" % fl, workers=8)
-            cases.extend(got)
+            groups = [(allsets[i:i + 2], ()) for i in range(0, 16, 2)]
+        gen += [(fl, cfg_file(ctx, table.cfg(consts(fl, g, lays), ("LawsHoldOnSpec",)))) for g, lays in groups]
+    got = parallel(lambda fl, name: (fl, tlc.json_cases(ctx, "SmartAddGen", cfg=name, label="SmartAddGen %s" % fl, workers=2)[0]),
+                   gen, core.max_workers() // 2)
+    for fl in ("bzr", "git"):
+        cases = [k for f, part in got if f == fl for k in part]
         if not cases:
             ctx.machinery("SmartAddGen exported no cases for %s" % fl)
         seen = set().union(*(k["wit"] for k in cases))
@@ -227,28 +267,33 @@ def run(ctx):
     ctx.rule("cases = every (layout over {f, g.o, d/, d/f, d/g.o, d/<ctl>/, n/, n/<ctl>/, f.THIS+f.OTHER}, ignore list "
              "subset of {*.o, d, ./d/f, !g.o}, text conflict on f or none, pre-versioned subset of {f, d, d/f}, 1-2 named "
              "paths out of {., d, g.o, d/g.o, n} that exist, recurse) enumerated by TLC (quick: 1500 per flavour sampled "
-             "from two seeded ignore lists); non-trivial = recursing over a layout with more than two paths")
+             "from 40 seeded layouts x 3 ignore lists); non-trivial = recursing over a layout with more than two paths")
 
 
 def judge(ctx, fl, rows):
-    """table.judge with the flavour constant; the Trace module also reports which kind of path deviates."""
+    """table.judge with the flavour constant, chunks side by side; the Trace module also reports which kind of path deviates."""
     import json
-    import time
-    out = []
-    for off in range(0, len(rows), 20000):
+
+    def one(off):
         part = rows[off:off + 20000]
-        fin = os.path.join(ctx.workdir, "rows_%d.json" % int(time.time() * 1e6))
+        fin = os.path.join(ctx.workdir, "rows_%s_%d.json" % (fl, off))
         with open(fin, "w") as f:
             json.dump([{"c": r["c"], "o": r["o"]} for r in part], f)
-        data, res = tlc.json_cases(ctx, "SmartAddTrace", cfg_text=table.cfg({"Flavour": '"%s"' % fl}), env={"VF_IN": fin},
-                                   label="SmartAddTrace %s" % fl, workers=4)
+        data, res = tlc.json_cases(ctx, "SmartAddTrace", cfg=names[off], env={"VF_IN": fin},
+                                   label="SmartAddTrace %s" % fl, workers=2)
         os.unlink(fin)
         if data["n"] != len(part):
             ctx.machinery("trace module consumed %s of %d rows" % (data["n"], len(part)))
+        out = []
         for b in data["bad"]:
             row = dict(part[b["row"] - 1])
             row.update(extra=list(b["extra"]), missing=list(b["missing"]), extra_roles=sorted(set(b["extraRoles"])),
                        missing_roles=sorted(set(b["missingRoles"])))
             out.append((row, list(b["failed"]), bool(b["drift"])))
-        ctx.count(0, traces=len(part))
-    return out
+        return out
+
+    offs = [(o,) for o in range(0, len(rows), 20000)]
+    names = {o: cfg_file(ctx, table.cfg({"Flavour": '"%s"' % fl})) for o, in offs}
+    res = parallel(one, offs, max(1, min(len(offs), core.max_workers() // 2)))
+    ctx.count(0, traces=len(rows))
+    return [x for part in res for x in part]
